@@ -123,10 +123,10 @@ func (x *xtr) assigned(stmts []ast.Stmt, declared, out map[string]bool) {
 	}
 }
 
-type ctlInfo struct{ ret, brk, cont, exitLoop bool }
+type ctlInfo struct{ ret, brk, cont, exitLoop, fuelLoop bool }
 
 func (a ctlInfo) or(b ctlInfo) ctlInfo {
-	return ctlInfo{a.ret || b.ret, a.brk || b.brk, a.cont || b.cont, a.exitLoop || b.exitLoop}
+	return ctlInfo{a.ret || b.ret, a.brk || b.brk, a.cont || b.cont, a.exitLoop || b.exitLoop, a.fuelLoop || b.fuelLoop}
 }
 
 // which control transfers leave the statement list (break / continue: those that target the enclosing loop)
@@ -150,13 +150,14 @@ func scanCtl(stmts []ast.Stmt) ctlInfo {
 		case *ast.BlockStmt:
 			r = r.or(scanCtl(t.List))
 		case *ast.ForStmt:
-			r.exitLoop = true
+			r.exitLoop, r.fuelLoop = true, true
 			r.ret = r.ret || scanCtl(t.Body.List).ret
 		case *ast.RangeStmt:
 			in := scanCtl(t.Body.List)
 			if in.ret || in.brk || in.exitLoop {
 				r.exitLoop = true
 			}
+			r.fuelLoop = r.fuelLoop || in.fuelLoop
 			r.ret = r.ret || in.ret
 		case *ast.TypeSwitchStmt:
 			for _, cl := range t.Body.List {
@@ -250,10 +251,11 @@ func (x *xtr) block(stmts []ast.Stmt, k func() string) string {
 	rest := func() string { return x.block(stmts[1:], k) }
 	switch t := s.(type) {
 	case *ast.ReturnStmt:
-		if x.ctx.ret == nil {
+		r := x.ctx.ret(x.retValue(t))
+		if r == "" {
 			x.bad(s, "return is not allowed here")
 		}
-		return x.ctx.ret(x.retValue(t))
+		return r
 	case *ast.BranchStmt:
 		if t.Label != nil {
 			x.bad(s, "labelled %s", t.Tok)
@@ -368,7 +370,7 @@ func (x *xtr) ifStmt(t *ast.IfStmt, rest func() string) string {
 	}
 	tuple := tupleNames(names)
 	savedCtx := x.ctx
-	x.ctx = xctx{}
+	x.ctx = xctx{mode: mNone}
 	x.env = copyEnv(saved)
 	thenS := x.block(t.Body.List, func() string { return tuple })
 	x.env = copyEnv(saved)
@@ -516,15 +518,9 @@ func (x *xtr) assign(t *ast.AssignStmt) string {
 			if x.shared[id.Name] {
 				x.bad(t, "element assignment to %s, which may share its backing array with another variable", id.Name)
 			}
-			if x.params[id.Name] {
-				x.bad(t, "element assignment to the slice parameter %s (visible to the caller)", id.Name)
-			}
 			i := x.intExpr(l.Index)
 			return fmt.Sprintf("let %s : %s := Go.setI %s %s %s", ident(id.Name), bty.lean(), ident(id.Name), paren(i), paren(value(nil, bty.elem)))
 		case kMap:
-			if x.params[id.Name] {
-				x.bad(t, "assignment to the map parameter %s (visible to the caller)", id.Name)
-			}
 			kk := x.co(l.Index, x.expr(l.Index), bty.key)
 			return fmt.Sprintf("let %s : %s := Go.mapSet %s %s %s", ident(id.Name), bty.lean(), ident(id.Name), paren(kk), paren(value(nil, bty.elem)))
 		}
@@ -556,6 +552,11 @@ func (x *xtr) assignTuple(t *ast.AssignStmt) string {
 				rs = x.applyFn(r, ident(id.Name), ft)
 				break
 			}
+		}
+		if ft, ok := x.known[selName(r.Fun)]; ok {
+			rtys = ft.results
+			rs = x.applyFn(r, selName(r.Fun), ft)
+			break
 		}
 		var ok bool
 		if rs, rtys, ok = x.callLibTuple(r); !ok {
